@@ -708,7 +708,8 @@ Section HashMap.
     | HClear => Ok ([], HUnit)
     | HReserve n => Ok (al, HUnit)
     | HRehash n => Ok (al, HUnit)
-    | HIterErase p => Ok (filter (fun kv => negb (p (fst kv) (snd kv))) al, HList al)
+    (* `m:remove(k)` for every visited binding satisfying p; a key that is not == to itself (NaN) is not found *)
+    | HIterErase p => Ok (filter (fun kv => negb (p (fst kv) (snd kv) && keqb (fst kv) (fst kv))) al, HList al)
     | HPairs => Ok (al, HList al)
     | HMapVals f => Ok (map (fun kv => (fst kv, f (snd kv))) al, HUnit)
     end.
@@ -1047,6 +1048,63 @@ Section StringBuilder.
     | BCommitOver n d => Trap TrapNoSpace
     | BPrepare n => Ok (l, BUnit)
     end.
+  (* ---- allocation failure.  [ok n] tells whether the allocator grants a block of n bytes; a refused
+     (re)allocation leaves the span as it was (allocator.nelua spanrealloc0).  stringbuilderT_grow then returns
+     false and the operations report failure (false / empty span) without touching the builder. *)
+  Definition sb_grow_a (ok : nat -> bool) (newsize : nat) (b : sb) : res (sb * bool) :=
+    let needed := newsize + 1 in
+    let cap := length (sbdata b) in
+    if needed <=? cap then Ok (b, true) else
+    match sb_cap_loop (S needed) (if cap =? 0 then SB_INIT_CAP_n else cap) needed with
+    | Trap TrapCapOverflow => Ok (b, false)
+    | Trap t => Trap t
+    | Ok c =>
+        let d1 := if ok c then srealloc 0%Z c (sbdata b) else sbdata b in
+        let d2 := if length d1 =? c then d1 else if ok needed then srealloc 0%Z needed d1 else d1 in
+        Ok (mksb d2 (sbsize b), needed <=? length d2)
+    end.
+
+  (* prepare: Ok (b', None) = the empty span was returned *)
+  Definition sb_prepare_a (ok : nat -> bool) (n : nat) (b : sb) : res (sb * option nat) :=
+    g <- sb_grow_a ok (sbsize b + n) b ;;
+    let (b1, r) := g in
+    if r then Ok (b1, Some (length (sbdata b1) - sbsize b1 - 1)) else Ok (b1, None).
+
+  Definition sb_step_a (ok : nat -> bool) (o : bop) (b : sb) : res (sb * bret) :=
+    match o with
+    | BWrite xs =>
+        if length xs =? 0 then Ok (b, BOkN true 0) else
+        p <- sb_prepare_a ok (length xs) b ;;
+        match snd p with
+        | None => Ok (fst p, BOkN false 0)
+        | Some _ => b1 <- sb_poke xs (fst p) ;; Ok (mksb (sbdata b1) (sbsize b1 + length xs), BOkN true (length xs))
+        end
+    | BWriteByte c n =>
+        if n =? 0 then Ok (b, BBool true) else
+        p <- sb_prepare_a ok n b ;;
+        match snd p with
+        | None => Ok (fst p, BBool false)
+        | Some _ => b1 <- sb_poke (repeat c n) (fst p) ;; Ok (mksb (sbdata b1) (sbsize b1 + n), BBool true)
+        end
+    | BPwc n xs =>
+        p <- sb_prepare_a ok n b ;;
+        match snd p with
+        | None => b' <- sb_commit 0 (fst p) ;; Ok (b', BBool false)      (* empty span: nothing can be written *)
+        | Some sp => if sp <? length xs then Trap TrapMem else
+                     b1 <- sb_poke xs (fst p) ;; b' <- sb_commit (length xs) b1 ;; Ok (b', BUnit)
+        end
+    | BResize n =>
+        g <- sb_grow_a ok n b ;;
+        let (b1, r) := g in
+        if negb r then Ok (b1, BBool false) else
+        d <- (if n <? sbsize b1 then sfill n (sbsize b1 - n) 0%Z (sbdata b1) else Ok (sbdata b1)) ;;
+        Ok (mksb d n, BBool true)
+    | BPrepare n => p <- sb_prepare_a ok n b ;; Ok (fst p, match snd p with None => BBool false | Some _ => BUnit end)
+    | BCommitOver n d =>
+        p <- sb_prepare_a ok n b ;;
+        b' <- sb_commit (match snd p with Some sp => sp | None => 0 end + 1 + d) (fst p) ;; Ok (b', BUnit)
+    | _ => sb_step o b
+    end.
 End StringBuilder.
 
 (* ------------------------------------------------------------------ hash.nelua *)
@@ -1116,8 +1174,12 @@ End Hash.
 Section Tokens.
   Local Open Scope Z_scope.
   Definition NZ_OFF : Z := 2 ^ 40.
+  (* a token t >= NAN_OFF stands for a value that is not == to anything, itself included (float NaN, record with
+     a NaN field) *)
+  Definition NAN_OFF : Z := 2 ^ 41.
+  Definition tok_isnan (t : Z) : bool := t >=? NAN_OFF.
   Definition tok_canon (t : Z) : Z := if t >=? NZ_OFF then t - NZ_OFF else t.
-  Definition tok_eqb (a b : Z) : bool := tok_canon a =? tok_canon b.
+  Definition tok_eqb (a b : Z) : bool := negb (tok_isnan a) && negb (tok_isnan b) && (tok_canon a =? tok_canon b).
   Definition tok_hash (t : Z) : Z := hash_int (tok_canon t).
   (* weak hash: many collisions, long chains *)
   Definition tok_hash_weak (t : Z) : Z := hash_int (tok_canon t) mod 4.
